@@ -25,7 +25,7 @@ import (
 //     the path of containers that were still open at the cut.
 
 type C09Val struct {
-	K     string    `json:"k"` // int | str | bytes | i16s | bool | float | list | map
+	K     string    `json:"k"` // int | str | bytes | i16s | bool | float | list | map | rec (record: Keys = the type's fields, S = type name)
 	I     int64     `json:"i,omitempty"`
 	S     string    `json:"s,omitempty"`
 	B     []byte    `json:"b,omitempty"`
@@ -38,11 +38,20 @@ type C09Val struct {
 	keyEnds    []int
 }
 
+func isMapLike(k string) bool   { return k == "map" || k == "rec" }
+func isContainer(k string) bool { return k == "list" || k == "map" || k == "rec" }
+
 type C09Case struct {
 	Format string  `json:"format"`
 	Tmpl   string  `json:"template"`
 	Doc    *C09Val `json:"doc"`
 	Cut    int     `json:"cut,omitempty"` // 0 = every cut point; otherwise only this one
+}
+
+type c09ArrStruct struct {
+	A int64
+	T [3]string
+	Z string
 }
 
 type c09Struct struct {
@@ -101,6 +110,9 @@ func genC09Tree(t *rapid.T, depth int) *C09Val {
 		return v
 	}
 	v := &C09Val{K: "map", Keys: genC09Keys(t, n)}
+	if n > 0 && rapid.IntRange(0, 2).Draw(t, "isrec") == 0 {
+		v.K, v.S = "rec", fmt.Sprintf("r%d", n) // the record type r<n> is declared from the first record of that name
+	}
 	for i := 0; i < n; i++ {
 		v.Elems = append(v.Elems, genC09Tree(t, depth+1))
 	}
@@ -140,6 +152,41 @@ func genC09Doc(t *rapid.T, tmpl string) *C09Val {
 			v.Elems = append(v.Elems, genC09Str(t))
 		}
 		return v
+	case "[4]string":
+		v := &C09Val{K: "list"}
+		for i, n := 0, rapid.IntRange(0, 4).Draw(t, "n"); i < n; i++ {
+			v.Elems = append(v.Elems, genC09Str(t))
+		}
+		return v
+	case "arrstruct", "[]arrstruct":
+		one := func() *C09Val {
+			fields := rapid.Permutation([]string{"A", "T", "Z"}).Draw(t, "afields")
+			fields = fields[:rapid.IntRange(1, 3).Draw(t, "nafields")]
+			v := &C09Val{K: "map", Keys: append([]string{}, fields...)}
+			for _, f := range fields {
+				switch f {
+				case "A":
+					v.Elems = append(v.Elems, genC09Int(t))
+				case "Z":
+					v.Elems = append(v.Elems, genC09Str(t))
+				default:
+					l := &C09Val{K: "list"}
+					for i, n := 0, rapid.IntRange(0, 3).Draw(t, "tn"); i < n; i++ {
+						l.Elems = append(l.Elems, genC09Str(t))
+					}
+					v.Elems = append(v.Elems, l)
+				}
+			}
+			return v
+		}
+		if tmpl == "arrstruct" {
+			return one()
+		}
+		v := &C09Val{K: "list"}
+		for i, n := 0, rapid.IntRange(0, 3).Draw(t, "nstructs"); i < n; i++ {
+			v.Elems = append(v.Elems, one())
+		}
+		return v
 	case "struct":
 		fields := rapid.Permutation([]string{"A", "B", "C", "D", "E"}).Draw(t, "fields")
 		fields = fields[:rapid.IntRange(0, 5).Draw(t, "nfields")]
@@ -163,7 +210,7 @@ func genC09Doc(t *rapid.T, tmpl string) *C09Val {
 	// untyped: any tree; the top level is a container (CTE) or anything (CBE)
 	for {
 		v := genC09Tree(t, 0)
-		if v.K == "list" || v.K == "map" {
+		if isContainer(v.K) {
 			return v
 		}
 	}
@@ -181,6 +228,12 @@ func c09Template(name string) interface{} {
 		return []string{}
 	case "struct":
 		return c09Struct{}
+	case "[4]string":
+		return [4]string{}
+	case "arrstruct":
+		return c09ArrStruct{}
+	case "[]arrstruct":
+		return []c09ArrStruct{}
 	}
 	return nil
 }
@@ -207,6 +260,41 @@ func c09Encode(v *C09Val, format string) ([]byte, error) {
 	if err := send(ev.Event{K: ev.Version}); err != nil {
 		return nil, err
 	}
+	// record types: one per record name, fields taken from the first record of that name (records of the
+	// same name generated later reuse those field names)
+	recFields := map[string][]string{}
+	var collect func(v *C09Val)
+	collect = func(v *C09Val) {
+		if v.K == "rec" {
+			if f, ok := recFields[v.S]; ok {
+				v.Keys = append([]string{}, f...)
+			} else {
+				recFields[v.S] = append([]string{}, v.Keys...)
+			}
+		}
+		for _, e := range v.Elems {
+			collect(e)
+		}
+	}
+	collect(v)
+	names := make([]string, 0, len(recFields))
+	for n := range recFields {
+		names = append(names, n)
+	}
+	sort.Strings(names)
+	for _, n := range names {
+		if err := send(ev.Event{K: ev.RecordType, Bs: []byte(n)}); err != nil {
+			return nil, err
+		}
+		for _, f := range recFields[n] {
+			if err := send(ev.Event{K: ev.StringArray, AT: events.ArrayTypeString, S: f}); err != nil {
+				return nil, err
+			}
+		}
+		if err := send(ev.Event{K: ev.End}); err != nil {
+			return nil, err
+		}
+	}
 	var walk func(v *C09Val) error
 	walk = func(v *C09Val) error {
 		v.start = buf.Len()
@@ -229,6 +317,18 @@ func c09Encode(v *C09Val, format string) ([]byte, error) {
 				return err
 			}
 			for _, e := range v.Elems {
+				if err = walk(e); err != nil {
+					return err
+				}
+			}
+			err = send(ev.Event{K: ev.End})
+		case "rec":
+			if err = send(ev.Event{K: ev.Record, Bs: []byte(v.S)}); err != nil {
+				return err
+			}
+			v.keyEnds = make([]int, len(v.Elems))
+			for i, e := range v.Elems {
+				v.keyEnds[i] = buf.Len()
 				if err = walk(e); err != nil {
 					return err
 				}
@@ -319,7 +419,27 @@ func c09Sub(p, f reflect.Value, path string, inProgressScalarFree bool) (strict 
 	}
 	switch p.Kind() {
 	case reflect.Slice, reflect.Array:
-		if p.Kind() == reflect.Slice && p.Type().Elem().Kind() != reflect.Interface && p.Type().Elem().Kind() != reflect.Slice && p.Type().Elem().Kind() != reflect.String {
+		if p.Kind() == reflect.Array {
+			// a Go array has all its elements from the start: elements not decoded yet are zero
+			incomplete := 0
+			for i := 0; i < p.Len() && i < f.Len(); i++ {
+				s, err := c09Sub(p.Index(i), f.Index(i), fmt.Sprintf("%s[%d]", path, i), inProgressScalarFree)
+				if err != nil {
+					return false, err
+				}
+				if s {
+					incomplete++
+				}
+			}
+			return incomplete > 0, nil
+		}
+		numericElem := false
+		switch p.Type().Elem().Kind() {
+		case reflect.Bool, reflect.Int, reflect.Int8, reflect.Int16, reflect.Int32, reflect.Int64, reflect.Uint, reflect.Uint8, reflect.Uint16, reflect.Uint32, reflect.Uint64,
+			reflect.Float32, reflect.Float64:
+			numericElem = true
+		}
+		if p.Kind() == reflect.Slice && numericElem {
 			// typed numeric slices / byte slices
 			if p.Len() > f.Len() {
 				return false, fmt.Errorf("%s: partial result has %d elements, the full value %d", path, p.Len(), f.Len())
@@ -428,13 +548,13 @@ func c09Lower(node *C09Val, p, f reflect.Value, k int, strictEnd bool, path stri
 		c09Verified++
 		return nil
 	}
-	if node.K != "list" && node.K != "map" {
+	if !isContainer(node.K) {
 		return nil // in-progress scalar / array: the upper bound is all that can be said
 	}
 	for i, child := range node.Elems {
 		if !done(child.end) {
 			// the child in progress (if it started at all): descend when both sides have it
-			if child.start < k && (child.K == "list" || child.K == "map") {
+			if child.start < k && isContainer(child.K) {
 				cp, cf := c09Child(node, i, p), c09Child(node, i, f)
 				if cp.IsValid() && cf.IsValid() {
 					return c09Lower(child, cp, cf, k, strictEnd, c09ChildPath(node, i, path))
@@ -454,7 +574,7 @@ func c09Lower(node *C09Val, p, f reflect.Value, k int, strictEnd bool, path stri
 }
 
 func c09ChildPath(node *C09Val, i int, path string) string {
-	if node.K == "map" {
+	if isMapLike(node.K) {
 		return fmt.Sprintf("%s[%q]", path, node.Keys[i])
 	}
 	return fmt.Sprintf("%s[%d]", path, i)
@@ -472,7 +592,7 @@ func c09Child(node *C09Val, i int, v reflect.Value) reflect.Value {
 		}
 		return v.Index(i)
 	case reflect.Map:
-		if node.K != "map" {
+		if !isMapLike(node.K) {
 			return reflect.Value{}
 		}
 		key := reflect.ValueOf(node.Keys[i])
@@ -483,7 +603,7 @@ func c09Child(node *C09Val, i int, v reflect.Value) reflect.Value {
 		}
 		return v.MapIndex(key)
 	case reflect.Struct:
-		if node.K != "map" {
+		if !isMapLike(node.K) {
 			return reflect.Value{}
 		}
 		return v.FieldByName(node.Keys[i])
@@ -491,7 +611,7 @@ func c09Child(node *C09Val, i int, v reflect.Value) reflect.Value {
 	return reflect.Value{}
 }
 
-var c09Templates = []string{"nil", "nil", "nil", "[]int64", "map[string]int64", "[][]int64", "[]string", "struct"}
+var c09Templates = []string{"nil", "nil", "nil", "nil", "[]int64", "map[string]int64", "[][]int64", "[]string", "struct", "[4]string", "arrstruct", "[]arrstruct"}
 
 func init() {
 	Register(&Prop{
@@ -549,7 +669,7 @@ func init() {
 				if err := c09Lower(c.Doc, pv, fv, k, c.Format == "cte", "$"); err != nil {
 					return fmt.Errorf("the partial result lost a completely decoded element: %v\n%s", err, where)
 				}
-				if (c.Doc.K == "list" || c.Doc.K == "map") && len(c.Doc.Elems) > 0 && c.Doc.Elems[0].end < k {
+				if isContainer(c.Doc.K) && len(c.Doc.Elems) > 0 && c.Doc.Elems[0].end < k {
 					nontrivial = true
 				}
 			}
